@@ -395,7 +395,12 @@ class SSHStreamSession(Generic[AnyStr]):
         """Allow SSHReader to be an async iterator"""
 
         while not self.at_eof(datatype):
-            yield await self.readline(datatype)
+            line = await self.readline(datatype)
+
+            if not line:
+                break
+
+            yield line
 
     async def _block_read(self, datatype: DataType) -> None:
         """Wait for more data to arrive on the stream"""
@@ -656,7 +661,12 @@ class SSHStreamSession(Generic[AnyStr]):
                     buflen += len(newbuf)
                     curbuf += 1
 
-                if self._read_paused or self._eof_received:
+                # Give up when no more data can arrive: at EOF, or when
+                # reading is paused because the receive buffer is full of
+                # data which doesn't contain a separator. If reading is
+                # paused on account of another stream's unread data and
+                # there's nothing buffered here, wait for it to be read.
+                if (self._read_paused and buflen) or self._eof_received:
                     recv_buf[:curbuf] = []
                     self._recv_buf_len -= buflen
                     self._maybe_resume_reading()
